@@ -24,6 +24,7 @@ from world.ledger import key, view_at, seal, mine_honest, make_tx, reward_tx, Un
 N_KEYS = 12
 # a legal output may pay to 64 bytes that are not a point on the curve; nobody can ever spend it
 NONCURVE = SECP256k1PublicKey(b'x' * 64)
+ZEROKEY = SECP256k1PublicKey(b'\x00' * 64)      # the all-zero "burn" key: not a curve point either
 HARD_TARGET = (1 << 252).to_bytes(32, 'big')
 
 _ORIG = {}
@@ -211,6 +212,8 @@ class LedgerSim:
                 if r not in refs:
                     refs.append(r)
             total = sum(rb.utxo[r][0] for r in refs)
+            if total <= 0:
+                continue          # only outputs worth nothing were picked: nothing can be paid from them
             fee = total * sp.get('fee_ppm', 0) // 1_000_000
             if fee >= total:
                 fee = total - 1
@@ -227,7 +230,7 @@ class LedgerSim:
                     v = min(v, left - (len(outs_spec) - 1 - n))
                 if v <= 0:
                     continue
-                outs.append((v, NONCURVE if kk == 99 else key(kk % N_KEYS)))
+                outs.append((v, NONCURVE if kk == 99 else (ZEROKEY if kk == 98 else key(kk % N_KEYS))))
                 left -= v
             if not outs:
                 continue
@@ -388,7 +391,46 @@ class LedgerSim:
             self.res.bump('accepted')
             return
         try:
-            block = mine_honest(view, txs, key(op.get('miner', 0) % N_KEYS), ts, nonce0=op.get('nonce0', 0), data=data)
+            if op.get('fat'):
+                # a block of (almost) the maximum size: the reward is paid out over very many outputs of 1 sashimi, the free
+                # data pads the rest (the size limit is inclusive; honest blocks may be this large)
+                from skepticoin.params import MAX_BLOCK_SIZE
+                total = rules.subsidy(rb.height + 1) + fees
+                tgt = self.expected_target(rb, ts)
+
+                def assemble(n_out, dlen):
+                    outs_ = [(1, key(j_ % N_KEYS)) for j_ in range(n_out - 1)] + [(total - (n_out - 1), key(op.get('miner', 0) % N_KEYS))]
+                    cb_ = W.reward_tx(rb.height + 1, outs_, (data + b'.' * 200)[:dlen])
+                    return W.seal(view, rb.height + 1, rb.id, ts, tgt, [cb_] + list(txs), nonce0=op.get('nonce0', 0))
+                dl0 = min(len(data), 100)
+                s1, s2 = len(assemble(1, dl0).serialize()), len(assemble(2, dl0).serialize())
+                n_out = 1 + (MAX_BLOCK_SIZE - op.get('fat_short', 0) - s1) // (s2 - s1)
+                block = assemble(n_out, dl0)
+                short = MAX_BLOCK_SIZE - op.get('fat_short', 0) - len(block.serialize())
+                if 0 < short <= 200 - dl0:
+                    block = assemble(n_out, dl0 + short)
+                self.res.bump('probe:block_of_maximum_size' if len(block.serialize()) >= MAX_BLOCK_SIZE - 31 else 'probe:block_near_maximum_size')
+            elif op.get('reward_outs'):
+                # an honest block whose reward is split over several outputs (some may be worth nothing: the rules bound the
+                # reward's total only), sealed with the repo's constructors
+                total = rules.subsidy(rb.height + 1) + fees
+                spec = op['reward_outs']
+                shares = sum(max(0, sh) for _k, sh in spec) or 1
+                outs, left = [], total
+                for n_, (kk, sh) in enumerate(spec):
+                    v = left if n_ == len(spec) - 1 and sh > 0 else (total * max(0, sh)) // shares
+                    v = min(v, left)
+                    outs.append((v, key(kk % N_KEYS)))
+                    left -= v
+                cb = W.reward_tx(rb.height + 1, outs, data)
+                tgt = self.expected_target(rb, ts)
+                block = W.seal(view, rb.height + 1, rb.id, ts, tgt.to_bytes(32, 'big') if isinstance(tgt, int) else tgt, [cb] + list(txs),
+                               nonce0=op.get('nonce0', 0))
+                self.res.bump('probe:reward_split_over_several_outputs')
+                if any(v == 0 for v, _ in outs):
+                    self.res.bump('probe:reward_output_worth_nothing')
+            else:
+                block = mine_honest(view, txs, key(op.get('miner', 0) % N_KEYS), ts, nonce0=op.get('nonce0', 0), data=data)
         except Unminable:
             self.res.bump('unminable')
             return
